@@ -388,6 +388,14 @@ def check(prop, tier, seed, replay=None):
             handles.campaign(run, seed, 150 if tier == "quick" else 20000)
         except Exception as x:  # noqa: BLE001
             run.cov["notes"].append(f"handles campaign did not run to completion: {type(x).__name__}: {str(x)[:200]}")
+    if prop == "C03":
+        # beyond the listed properties: the crash points of every mutation (spec/TdfTorn.tla); C03 is the
+        # property about files staying well-formed, this is what a crash in the middle of a call leaves.  Only notes.
+        try:
+            from . import torn
+            torn.campaign(run, seed, 60 if tier == "quick" else 3000)
+        except Exception as x:  # noqa: BLE001
+            run.cov["notes"].append(f"torn campaign did not run to completion: {type(x).__name__}: {str(x)[:200]}")
     run.cov["distinct_nontrivial"] = total_distinct
     run.cov["rule"] = ("transition tours over TLC's labelled state graph of MCSession (every selected edge = one "
                        "(model state, call) pair, executed on real files and judged by TLC against TdfSessionTrace); "
